@@ -4,6 +4,8 @@ State construction is compared with an independent conformance oracle written fr
 meaning of each annotation.  This sweep is the only coverage of the reflective annotation resolver
 (state/attributes.py): it is *bounded* and never counted as proved."""
 import datetime
+import re
+import typing
 import enum
 import itertools
 import json
@@ -50,6 +52,26 @@ def fn(a):
     return a
 
 
+@typing.runtime_checkable
+class Runs(typing.Protocol):           # protocols are supported when runtime checkable (as in the repository's examples)
+    def run(self, x: int) -> int: ...
+
+
+@typing.runtime_checkable
+class Fetching(typing.Protocol):
+    async def __call__(self, key: str) -> str: ...
+
+
+class Runner:
+    def run(self, x):
+        return x
+
+
+class Other:
+    def walk(self):
+        return None
+
+
 type SeqAlias[T] = Sequence[T]
 type MapAlias[V] = Mapping[str, V]
 type OptAlias[T] = T | None
@@ -79,6 +101,15 @@ LEAVES = [
     ("Any", Any, [1, "x", None, [1], object], []),
     ("Missing", Missing, [MISSING], [None, False, 0]),
     ("Callable", Callable[[int], int], [fn, len, int], [1, "f", None]),
+    ("time", datetime.time, [datetime.time(1, 2, 3)], [DT, "01:02:03", 1]),
+    ("timedelta", datetime.timedelta, [datetime.timedelta(seconds=5)], [5, 5.0, DT]),
+    ("timezone", datetime.timezone, [datetime.timezone.utc], ["UTC", 0, None]),
+    ("complex", complex, [1j, complex(1, 2)], [1, 1.0, "1j"]),
+    ("range", range, [range(3)], [[0, 1, 2], (0, 1, 2), 3]),
+    ("Pattern", re.Pattern, [re.compile("a+")], ["a+", None]),
+    ("type", type, [int, Inner, Color], [1, "int", None]),
+    ("Protocol(method)", Runs, [Runner()], [Other(), 1, None, fn]),
+    ("Protocol(call)", Fetching, [fn, len, Runner], [1, "f", None, Other()]),
     ("Inner", Inner, [Inner(x=1), Inner(x=2, y="z")], [{"x": 1}, 1, None]),
     ("G[int]", G[int], [G[int](item=3)], [G[str](item="s"), 3]),
     ("Node", Node, [Node(value=1), Node(value=1, child=Node(value=2))], [1, None]),
@@ -214,6 +245,24 @@ def _leaf_conf(t, v):
     if n == "Missing":
         return v is MISSING
     if n == "Callable":
+        return callable(v)
+    if n == "time":
+        return isinstance(v, datetime.time)
+    if n == "timedelta":
+        return isinstance(v, datetime.timedelta)
+    if n == "timezone":
+        return isinstance(v, datetime.timezone)
+    if n == "complex":
+        return isinstance(v, complex)
+    if n == "range":
+        return isinstance(v, range)
+    if n == "Pattern":
+        return isinstance(v, re.Pattern)
+    if n == "type":
+        return isinstance(v, type)
+    if n == "Protocol(method)":
+        return callable(getattr(v, "run", None))
+    if n == "Protocol(call)":
         return callable(v)
     if n == "Inner":
         return isinstance(v, Inner)
